@@ -136,20 +136,64 @@ def check(index, ctx):
         need[mname] = r[1]
     init, reset, fwd = need["__init__"], need["reset"], need["forward"]
     ctx.analysed(*(f.qualname for f in cls.methods.values()))
-    init_st = stores(init.node)
+
+    def self_calls(fn_node):
+        return {self_attr(n.func) for n in ast.walk(fn_node) if isinstance(n, ast.Call) and self_attr(n.func) and self_attr(n.func) in cls.methods}
+
+    callers: dict[str, set] = {m: set() for m in cls.methods}
+    for mname, f in cls.methods.items():
+        for c in self_calls(f.node):
+            callers[c].add(mname)
+    # helpers reachable only from the constructor and reset() are part of them (e.g. a shared `_set_initial_state`)
+    setup_helpers = set()
+    changed = True
+    while changed:
+        changed = False
+        for mname in cls.methods:
+            if mname in ("__init__", "reset", "forward") or mname in setup_helpers:
+                continue
+            if callers[mname] and callers[mname] <= ({"__init__", "reset"} | setup_helpers):
+                setup_helpers.add(mname)
+                changed = True
+
+    def expanded(fn_node, depth=3):
+        """Copy of the function with statements `self.<setup helper>()` replaced by the helper's body."""
+        import copy
+
+        def splice(stmts, d):
+            out = []
+            for st in stmts:
+                if d > 0 and isinstance(st, ast.Expr) and isinstance(st.value, ast.Call) and self_attr(st.value.func) in setup_helpers and not st.value.args and not st.value.keywords:
+                    h = cls.methods[self_attr(st.value.func)].node
+                    if len(h.args.args) == 1 and not any(isinstance(x, ast.Return) and x.value is not None for x in ast.walk(h)):
+                        out.extend(splice(copy.deepcopy(h.body), d - 1))
+                        continue
+                for fld in ("body", "orelse", "finalbody"):
+                    blk = getattr(st, fld, None)
+                    if isinstance(blk, list) and blk and isinstance(blk[0], ast.stmt):
+                        setattr(st, fld, splice(blk, d))
+                out.append(st)
+            return out
+
+        node = copy.deepcopy(fn_node)
+        node.body = splice(node.body, depth)
+        return ast.fix_missing_locations(node)
+
+    init_node, reset_node = expanded(init.node), expanded(reset.node)
+    init_st = stores(init_node)
     params = {a.arg for a in init.node.args.args[1:]}
     param_fields = {a for a, ss in init_st.items() if any(isinstance(v, ast.Name) and v.id in params for _, v in ss)}
     init_expr = {a: ss[-1][1] for a, ss in init_st.items()}
     # state fields: stored outside __init__
     state: dict[str, list] = {}
     for mname, f in cls.methods.items():
-        if mname == "__init__":
+        if mname == "__init__" or mname in setup_helpers:
             continue
-        for a, ss in stores(f.node).items():
+        for a, ss in stores(reset_node if mname == "reset" else f.node).items():
             state.setdefault(a, []).extend((mname, s) for s, _ in ss)
     mutable = {a for a, ws in state.items() if any(m != "reset" for m, _ in ws)}
-    reset_st = stores(reset.node)
-    rcfg = cfg_of(reset.node)
+    reset_st = stores(reset_node)
+    rcfg = cfg_of(reset_node)
     fcfg = cfg_of(fwd.node)
     ctx.paths += len(fcfg.acyclic_paths())
 
@@ -201,7 +245,7 @@ def check(index, ctx):
             r = cls.lookup(gm)
             if r is None:
                 continue
-            top = [s for s in r[1].node.body if any(self_attr(t) == a for t in (s.targets if isinstance(s, ast.Assign) else []))]
+            top = [s for s in r[1].node.body if any(self_attr(t) == a for t in (s.targets if isinstance(s, ast.Assign) else ([s.target] if isinstance(s, ast.AnnAssign) and s.value is not None else [])))]
             if top:
                 fok, fwhy = reset_restores(fld)
                 if fok:
@@ -260,16 +304,33 @@ def check(index, ctx):
                 return ("D", False)
         return None
 
-    mods = [n for n in fcfg.nodes if n.kind == "test" and isinstance(n.ast, ast.If) and any(isinstance(x, ast.BinOp) and isinstance(x.op, ast.Mod) and "step" in loads(x) for x in ast.walk(n.ast.test))]
-    sched = [n for n in mods if "D" in g_atoms(n.ast.test, classify)]
+    # the schedule may be evaluated into a local first (`due = self.step % k == 0; self.step += 1; if due:`): the test is read with
+    # such locals expanded, and "tested before step advances" is then about the statement that evaluates the remainder
+    from ..astutil import inline_locals
+
+    has_mod = lambda e: any(isinstance(x, ast.BinOp) and isinstance(x.op, ast.Mod) and "step" in loads(x) for x in ast.walk(e))
+    test_of, eval_node = {}, {}
+    for n in fcfg.nodes:
+        if n.kind == "test" and isinstance(n.ast, ast.If):
+            if has_mod(n.ast.test):
+                test_of[n], eval_node[n] = n.ast.test, n
+            else:
+                t2 = inline_locals(n.ast.test, fwd.node)
+                if has_mod(t2):
+                    names = {x.id for x in ast.walk(n.ast.test) if isinstance(x, ast.Name)}
+                    defs = [d for d in fcfg.stmt_nodes() if d.kind == "stmt" and isinstance(d.ast, ast.Assign) and isinstance(d.ast.targets[0], ast.Name) and d.ast.targets[0].id in names and has_mod(d.ast.value)]
+                    if len(defs) == 1 and fcfg.dominates(defs[0], n):
+                        test_of[n], eval_node[n] = t2, defs[0]
+    mods = list(test_of)
+    sched = [n for n in mods if "D" in g_atoms(test_of[n], classify)]
     if len(sched) != 1 or len(mods) != 1:
         if len(mods) == 1 and not sched:
-            ctx.violated("R2", "forward: schedule test form", f"schedule test `{norm_text(mods[0].ast.test)}` is not `self.step % self.update_weights_every == 0`", fwd.loc(mods[0].ast))
+            ctx.violated("R2", "forward: schedule test form", f"schedule test `{norm_text(test_of[mods[0]])}` is not `self.step % self.update_weights_every == 0`", fwd.loc(mods[0].ast))
         else:
             ctx.undecided("R2", "forward: schedule test", f"expected one `self.step % self.update_weights_every == 0` test, found {len(sched)}", fwd.loc())
         return
     st = sched[0]
-    t = st.ast.test
+    t = test_of[st]
     due = [lbl for lbl in (True, False) if implies([(t, lbl)], classify, "D", True)]
     idle = [lbl for lbl in (True, False) if implies([(t, lbl)], classify, "D", False)]
     if len(due) != 1 or len(idle) != 1:
@@ -277,14 +338,22 @@ def check(index, ctx):
         return
     due_lbl, idle_lbl = str(due[0]), str(idle[0])
     ctx.ok("R2", "forward: schedule test form", f"`{norm_text(t)}`: edge {due_lbl} means step % update_weights_every == 0", fwd.loc(st.ast))
-    ctx.require(all(fcfg.dominates(st, n) for n in incs), "R2", "forward: schedule is tested before step advances", "test dominates the increment",
+    ctx.require(all(fcfg.dominates(eval_node[st], n) and eval_node[st] is not n for n in incs), "R2", "forward: schedule is tested before step advances", "test dominates the increment",
                 "`self.step += 1` can execute before the schedule test: recomputation would shift to calls k-1, 2k-1, ...", fwd.loc(st.ast))
     writers_pa = sorted({m for m, _ in state.get("prvs_alpha", []) if m != "reset"})
     ctx.require(len(writers_pa) == 1, "R2", "prvs_alpha has a single writer (the optimiser)", f"written by {writers_pa}", f"prvs_alpha is written by {writers_pa}", cls.loc())
     opt = writers_pa[0] if writers_pa else None
     true_nodes = {n for n in fcfg.stmt_nodes() if (st, due_lbl) in fcfg.guards_of(n)}
     false_nodes = {n for n in fcfg.stmt_nodes() if (st, idle_lbl) in fcfg.guards_of(n)}
-    calls_opt = lambda nodes: any(isinstance(x, ast.Call) and self_attr(x.func) == opt for n in nodes for e in own_exprs(n) for x in ast.walk(e))
+    reaches_opt = {opt}
+    grew = True
+    while grew:  # methods that (transitively) call the optimiser
+        grew = False
+        for mname, f in cls.methods.items():
+            if mname not in reaches_opt and mname not in ("forward", "__init__", "reset") and self_calls(f.node) & reaches_opt:
+                reaches_opt.add(mname)
+                grew = True
+    calls_opt = lambda nodes: any(isinstance(x, ast.Call) and self_attr(x.func) in reaches_opt for n in nodes for e in own_exprs(n) for x in ast.walk(e))
     ctx.require(opt is not None and calls_opt(true_nodes) and not calls_opt(false_nodes), "R2", "forward: optimiser runs exactly on scheduled calls",
                 f"{opt}() called on the due branch only", f"{opt}() is not called exactly on the branch where step % update_weights_every == 0", fwd.loc(st.ast))
     # reuse path: everything reachable from the False edge
